@@ -113,6 +113,13 @@ def base_streams(tier):
     add('J:empty', [s0])
     add('J:empty+1', [s0, s1], mutate='fields')
     add('J:1+empty+9', [s1, s0, s9], mutate='fields')
+    # the declared block size belongs to the stream: a 100001-byte block is an overrun in a level-1 stream
+    # whatever the level of the first stream was, and fine in a level-2 stream that follows a level-1 stream
+    Lz = bytes(100001)
+    big = Block(L=Lz, origptr=100000, plain_for_crc=_unrle(Lz))
+    add('J:9+L1 overrun', [s9, ([big], 1)], mutate='none')
+    add('J:1+L2 n100001', [s1, ([big], 2)], mutate='none')
+    add('J:1+L2 n100001+L1 overrun', [s1, ([big], 2), ([big], 1)], mutate='none')
     valid1 = bzgen.build([s1])[0]
     for tr in (b'\x00', b'\x00\x00\x00\x00', b'B', b'BZ', b'BZh', b'BZh0', b'BZh:', b'BZh9', b'BZh9garbage', valid1,
                b'x' + valid1, b'BZh1' + b'\x17\x72\x45\x38\x50\x90\x00\x00\x00\x01', b'\x00' * 3 + b'BZh9'):
